@@ -6,7 +6,8 @@
 (*   repr_same   the printed forms are identical                           *)
 (*   vals   per probe value: [errs_same (same error kinds, paths, reported *)
 (*          sub-values, parameters), msgs_same (same rendered messages)]   *)
-(*   gens   per constant tape: [exc_w, exc_p, same_value, plain_accepts]   *)
+(*   gens   per constant tape: [exc_w, exc_p, same_value, plain_accepts,   *)
+(*          plain_own_ok (the plain tree accepts what it generates itself)] *)
 (*   subs   per probe value: [exc_w, exc_p, res_same (results equal up to  *)
 (*          the wrappers), repr_same]                                      *)
 (*   built_flat  (only for the any-of-wrapped-any construction) whether    *)
@@ -46,7 +47,7 @@ Verdict(e) ==
   ELSE IF \E j \in DOMAIN e.vals : ~e.vals[j].errs_same THEN "FAIL:validation_errors_differ:" \o Sig(e)
   ELSE IF \E j \in DOMAIN e.vals : ~e.vals[j].msgs_same THEN "FAIL:validation_messages_differ:" \o Sig(e)
   ELSE IF \E j \in DOMAIN e.gens : e.gens[j].exc_w # e.gens[j].exc_p THEN "FAIL:generation_outcome_differs:"
-  ELSE IF \E j \in DOMAIN e.gens : e.gens[j].exc_w = "" /\ ~e.gens[j].plain_accepts
+  ELSE IF \E j \in DOMAIN e.gens : e.gens[j].exc_w = "" /\ ~e.gens[j].plain_accepts /\ e.gens[j].plain_own_ok
        THEN "FAIL:generated_value_rejected_by_plain_tree:"
   ELSE IF \E j \in DOMAIN e.subs : e.subs[j].exc_w # e.subs[j].exc_p THEN "FAIL:substitution_outcome_differs:"
   ELSE IF \E j \in DOMAIN e.subs : e.subs[j].exc_w = "" /\ (~e.subs[j].res_same \/ ~e.subs[j].repr_same)
